@@ -406,14 +406,24 @@ func (l EtcLookup) ProcessInstr(p InstrProcessor) {
 }
 
 // FillTable fills Dst (which must contain a table) with the contents of Etc
-// (which must be an etc value) starting from the given index.
+// (which must be an etc value) starting from the given index.  The index is Idx
+// unless IdxInReg is true, in which case it is the integer contained in the
+// register IdxReg.  The latter form must be used if Idx > MaxFillTableIdx.
 type FillTable struct {
-	Etc Register
-	Dst Register
-	Idx int
+	Etc      Register
+	Dst      Register
+	Idx      int
+	IdxInReg bool
+	IdxReg   Register
 }
 
+// MaxFillTableIdx is the maximum value of FillTable.Idx.
+const MaxFillTableIdx = 255
+
 func (f FillTable) String() string {
+	if f.IdxInReg {
+		return fmt.Sprintf("fill %s with %s from %s", f.Dst, f.Etc, f.IdxReg)
+	}
 	return fmt.Sprintf("fill %s with %s from %d", f.Dst, f.Etc, f.Idx)
 }
 
